@@ -85,7 +85,7 @@ def full_range(f, i, var_id, bound_alpha):
 
 def gw1(P, C):
     C.rule("GW-1", "fit builds the penalty as the zero matrix of side prod(nknots[i]-order[i]-1) plus, for every dimension i, add_penalty_term("
-           "nsplines, knots[i], ndim, i, order[i], penaltyOrder[i or 0], smoothing[i or 0], i==monodim, penalty) — all per-dimension arguments "
+           "nsplines, knots[i], ndim, i, order[i], penaltyOrder[i or 0], smoothing[i or 0], monodim or -1, penalty) — all per-dimension arguments "
            "indexed by the same loop variable, scalar arguments broadcast by size()>1 — and hands data, weights, coordinates, knots, orders and "
            "that penalty to glamfit_complex", floor=8)
     fs = [g for g in P.fns("fit") if g.cls == ts.CLS and g.unit == "driver"]
@@ -97,8 +97,9 @@ def gw1(P, C):
         sz = calls(f, "cholmod_l_spzeros")
         gl = calls(f, "glamfit_complex")
         want = ("(v0=add_penalty_term(v1.get(),(&knots[v2][0]),ndim,v2,order[v2],((1<$6.size())?$6[v2]:$6[0]),((1<$5.size())?$5[v2]:$5[0]),"
-                "(v2==$7),v0,(&v3)))")
-        ok = len(ap) == 1 and ap[0][2] == want
+                "(($7==no_monodim)?(-1):(int)$7),v0,(&v3)))")
+        # which dimension is monotonic does not enter the unconstrained objective: the index form or the flag form (i == monodim)
+        ok = len(ap) == 1 and ap[0][2] in (want, want.replace("(($7==no_monodim)?(-1):(int)$7)", "(v2==$7)"))
         det = "add_penalty_term statement %s" % ("matches" if ok else (ap[0][2][:300] if ap else "missing"))
         pen = ns = None
         if ok:
@@ -218,18 +219,22 @@ def gw3(P, C):
         det = "stores %s" % sorted(got)
     C.ob("GW-3", "calc_penalty", "difference-matrix-rows", ok2 and fill_ok, f.loc(dd[0][0]) if dd else f.where(),
          "row r = divided_diffs(order, porder, r, knots) written to (r, r..r+porder), entry counter advanced once per entry; %s" % det)
-    ok3 = len(ts_) == 1 and ts_[0][2] == "(v0=cholmod_l_triplet_to_sparse(v1,v1->nnz,$7))" and ts_[0][3][1] == trip and len(tr) == 1 and \
-        tr[0][2] == "(v0=cholmod_l_transpose(v1,1,$7))" and len(sm) == 1
+    ok3 = len(ts_) == 1 and ts_[0][2] == "(v0=cholmod_l_triplet_to_sparse(v1,v1->nnz,$7))" and ts_[0][3][1] == trip and len(sm) == 1
     dtd = None
     if ok3:
         fd = ts_[0][3][0]
-        # the monotonic branch may replace finitediff by finitediff*tril: same variable
-        ok3 = tr[0][3][1] == fd and sm[0][3][1] == tr[0][3][0] and sm[0][3][2] == fd
+        # the transpose that feeds the symmetric product is the transpose of the difference matrix
+        # (the monotonic branch may replace finitediff by finitediff*tril: same variable)
+        trd = [t for t in tr if t[2] == "(v0=cholmod_l_transpose(v1,1,$7))" and t[3][1] == fd]
+        ok3 = len(trd) == 1 and sm[0][3][1] == trd[0][3][0] and sm[0][3][2] == fd
         dtd = sm[0][3][0]
     C.ob("GW-3", "calc_penalty", "block-is-DtD", ok3, f.loc(sm[0][0]) if sm else f.where(), "block = transpose(D) * D with D the difference matrix (values transposed, symmetric product)")
     ok4 = False
     det4 = ""
-    if dtd is not None and len(ey) == 1 and len(kr) == 1:
+    chain = _factor_chain(f, dtd, ey, kr) if dtd is not None and len(ey) == 1 and len(kr) == 1 else None
+    if chain is not None:
+        ok4, det4 = chain
+    elif dtd is not None and len(ey) == 1 and len(kr) == 1:
         co = [x for x in f.walk() if f.k(x) == "ConditionalOperator"]
         if len(co) == 1:
             par = f.parent[co[0]]
@@ -254,6 +259,55 @@ def gw3(P, C):
             else:
                 det4 = txt[:200]
     C.ob("GW-3", "calc_penalty", "kronecker-extension", ok4, f.loc(kr[0][0]) if kr else f.where(), det4 or "expected one conditional factor and one kronecker_product")
+
+
+def _factor_chain(f, dtd, ey, kr):
+    """calc_penalty's factor selection written as `if (i == dim) F = block; else if (<monotonic slot>) F = T'T; else F = I(nsplines[i])`,
+    followed by result = first factor / kronecker_product(result, F), in a loop over all dimensions.  Returns (ok, detail) or None when the
+    function does not use this form."""
+    k = kr[0]
+    res, tmp2 = k[3][1], k[3][2]
+    sets = [x for x in f.walk() if ts.assign_parts(f, x) and f.nodes[x].get("op") == "=" and f.k(f.strip(ts.assign_parts(f, x)[0])) == "DeclRefExpr" and
+            f.nodes[f.strip(ts.assign_parts(f, x)[0])]["decl"].get("id") == tmp2]
+    if len(sets) < 2 or any(f.k(y) == "ConditionalOperator" for x in sets for y in f.walk(x)):
+        return None
+    loop = next((a for a in f.ancestors(k[1]) if f.k(a) == "ForStmt"), None)
+    cl = _c_canonical_loop(f, loop) if loop is not None else None
+    if cl is None or cl[1] != "$2":
+        return False, "the Kronecker loop does not run over all ndim dimensions"
+    iv = cl[0]
+    kinds = {}
+    for x in sets:
+        rhs = f.strip(ts.assign_parts(f, x)[1])
+        conds = []
+        prev = x
+        for a in f.ancestors(x):
+            if a == loop:
+                break
+            if f.k(a) == "IfStmt":
+                conds.append((f.alpha(f.nodes[a]["cond"])[0].replace(" ", ""), f.alpha(f.nodes[a]["cond"])[1], f.nodes[a].get("then") == prev or prev in set(f.walk(f.nodes[a]["then"]))))
+            prev = a
+        txt, order = f.alpha(rhs)
+        txt = txt.replace(" ", "")
+        if f.k(rhs) == "DeclRefExpr" and f.nodes[rhs]["decl"].get("id") == dtd:
+            kinds["block"] = conds
+        elif txt == "cholmod_l_speye($0[v0],$0[v0],1,$7)" and order == [iv]:
+            kinds["identity"] = conds
+        elif txt.startswith("cholmod_l_ssmult("):
+            kinds["tt"] = (conds, txt, order)
+        else:
+            return False, "unrecognised Kronecker factor %s" % txt[:80]
+    okb = "block" in kinds and len(kinds["block"]) == 1 and kinds["block"][0][0] == "(v0==$3)" and kinds["block"][0][1] == [iv] and kinds["block"][0][2]
+    oki = "identity" in kinds and all(not c[2] for c in kinds["identity"]) and len(kinds["identity"]) >= 1
+    firsts = [x for x in f.walk() if ts.assign_parts(f, x) and f.alpha(x)[0].replace(" ", "") == "(v0=v1)" and f.alpha(x)[1] == [res, tmp2]]
+    backs = [x for x in f.walk() if ts.assign_parts(f, x) and f.alpha(x)[0].replace(" ", "") == "(v0=v1)" and f.alpha(x)[1] == [res, k[3][0]]]
+    rets = [x for x in f.walk() if f.k(x) == "ReturnStmt"]
+    okk = k[2] == "(v0=kronecker_product(v1,v2,$7))" and len(firsts) == 1 and len(backs) == 1 and len(rets) == 1 and f.alpha(rets[0])[1] == [res]
+    if okk:
+        g = [a for a in f.ancestors(firsts[0]) if f.k(a) == "IfStmt"]
+        okk = len(g) == 1 and f.alpha(f.nodes[g[0]]["cond"])[0].replace(" ", "") in ("(v0==(void*)0)", "(!v0)") and f.alpha(f.nodes[g[0]]["cond"])[1] == [res]
+    return bool(okb and oki and okk), ("factor_i = block when i == dim: %s; identity of nsplines[i] in the last else-branch: %s; result = first factor, then "
+                                       "kronecker_product(result, factor_i) for i = 0..ndim-1, returned: %s" % (bool(okb), bool(oki), bool(okk)))
 
 
 def gw4(P, C):
